@@ -2278,7 +2278,11 @@ impl Connection {
         ecn: Option<EcnCodepoint>,
         data: BytesMut,
     ) {
-        self.path.total_recvd = self.path.total_recvd.saturating_add(data.len() as u64);
+        // As in `handle_event`: only bytes that came from the path's own address raise its
+        // anti-amplification budget.
+        if remote == self.path.remote {
+            self.path.total_recvd = self.path.total_recvd.saturating_add(data.len() as u64);
+        }
         let mut remaining = Some(data);
         while let Some(data) = remaining {
             match PartialDecode::new(
